@@ -42,10 +42,28 @@ KINDS = ['G', 'Gn', 'L', 'Ln', 'P', 'H', 'CG', 'CGn', 'T']
 def plain(kinds_dims):
     """the composition without its reduced wrappers: a ReducedPopulationModel with nothing fixed ('R:<kind>' around one sub-model, the marker
     ('RTOP', 0, 0) around the whole model) is by C08 the wrapped model itself, so the published layout and the specification are the same"""
-    return tuple((k[2:] if k.startswith('R:') else k, d, nc) for k, d, nc in kinds_dims if k != 'RTOP')
+    return tuple((k[2:] if k.startswith('R:') else k, d, nc) for k, d, nc in kinds_dims if k not in ('RTOP', '(', ')'))
 
 
 def build_model(chi_mod, kinds_dims, n_ids):
+    if any(k in ('(', ')') for k, _, _ in kinds_dims):
+        # ('(', 0, 0) ... (')', 0, 0) group the parts in between into a ComposedPopulationModel of their own, nested inside the outer one:
+        # the published layout and the specification are those of the flat composition
+        parts, group = [], None
+        for kd in kinds_dims:
+            if kd[0] == '(':
+                group = []
+            elif kd[0] == ')':
+                parts.append(chi_mod.ComposedPopulationModel([build_model(chi_mod, (g_,), n_ids) for g_ in group]))
+                group = None
+            elif kd[0] == 'RTOP':
+                continue
+            elif group is not None:
+                group.append(kd)
+            else:
+                parts.append(build_model(chi_mod, (kd,), n_ids))
+        m = chi_mod.ComposedPopulationModel(parts)
+        return chi_mod.ReducedPopulationModel(m) if any(k == 'RTOP' for k, _, _ in kinds_dims) else m
     subs = []
     top = any(k == 'RTOP' for k, _, _ in kinds_dims)
     wrapped = [k.startswith('R:') for k, _, _ in kinds_dims if k != 'RTOP']
@@ -533,6 +551,10 @@ def compositions(tier):
     # reduced wrappers with nothing fixed: around a single model, around one part of a composition, around the whole composition
     out += [(('R:Gn', 1, 0),), (('R:Ln', 2, 0),), (('R:CGn', 1, 1),), (('R:P', 1, 0), ('Gn', 1, 0)), (('R:Ln', 1, 0), ('P', 1, 0)), (('G', 1, 0), ('R:Gn', 1, 0)),
             (('Gn', 1, 0), ('H', 1, 0), ('RTOP', 0, 0)), (('Ln', 1, 0), ('RTOP', 0, 0)), (('R:Gn', 1, 0), ('L', 1, 0), ('RTOP', 0, 0))]
+    # composed models nested inside a composed model (with and without pooled / heterogeneous dimensions inside the nested one)
+    O, C_ = ('(', 0, 0), (')', 0, 0)
+    out += [(O, ('P', 1, 0), ('G', 1, 0), C_, ('L', 1, 0)), (('G', 1, 0), O, ('Ln', 1, 0), ('H', 1, 0), C_), (O, ('G', 1, 0), ('L', 1, 0), C_, ('Gn', 1, 0)),
+            (O, ('H', 1, 0), ('Gn', 1, 0), C_, O, ('P', 1, 0), C_), (('P', 1, 0), O, ('CG', 1, 1), ('P', 1, 0), C_)]
     return out
 
 
